@@ -10,7 +10,32 @@ env = dict(os.environ)
 env['PYTHONPATH'] = os.path.join(repo, 'src')
 cmd = ['/venv/bin/python', '-m', 'pytest', '-q', '-p', 'no:cacheprovider', '--timeout=900',
        '--continue-on-collection-errors', '--junitxml=' + out] + sys.argv[2:]
-r = subprocess.run(cmd, cwd=repo, env=env, stdout=subprocess.PIPE, stderr=subprocess.STDOUT, text=True)
+# a changed tree can leave a non-daemon thread blocked for ever: pytest then writes its report but never exits.  Poll, and
+# end the process once the junit file is complete and unchanged for 30 s (or after 40 min in any case).
+import time
+logf = tempfile.TemporaryFile(mode='w+')
+proc = subprocess.Popen(cmd, cwd=repo, env=env, stdout=logf, stderr=subprocess.STDOUT, text=True)
+t0 = time.time()
+stable_since = None
+while proc.poll() is None:
+    time.sleep(2)
+    if os.path.exists(out) and os.path.getsize(out) > 0:
+        m = os.path.getmtime(out)
+        if time.time() - m > 30:
+            proc.kill()
+            break
+    if time.time() - t0 > 2400:
+        proc.kill()
+        break
+proc.wait()
+logf.seek(0)
+
+
+class _R(object):
+    stdout = logf.read()
+
+
+r = _R()
 passed, failed = set(), set()
 for tc in ET.parse(out).getroot().iter('testcase'):
     tid = (tc.get('classname') or '') + '::' + (tc.get('name') or '')
@@ -23,7 +48,7 @@ for tc in ET.parse(out).getroot().iter('testcase'):
 os.unlink(out)
 stable = set(base['stable_pass'])
 missing = sorted(stable - passed)
-print(r.stdout.strip().splitlines()[-1])
+print((r.stdout.strip().splitlines() or ['(no pytest output)'])[-1])
 print('stable_pass %d, still passing %d, regressions %d' % (len(stable), len(stable & passed), len(missing)))
 for t in missing[:40]:
     print('  REGRESSION', t)
